@@ -819,7 +819,9 @@ def judge_map(st: State, ev):
                     got=repr(float(Tj[i, j])), recomputed=repr(float(exp[i, j])),
                     mu_per_unit=repr(float(mu[j])), nodes=int(w.size),
                     sum_w_over_V=repr(float(np.sum(w.astype(LD)) / V)))
-        keys['detector_near_axis_direction'] = bool(near_det[i])
+        # mechanism fact for the worst detector: is any node-to-detector direction near the axis?
+        keys['detector_near_axis_direction'] = bool(
+            near_det[i] or np.any(_tilt(g, D[i][None, :] - pts) <= NEAR_AXIS))
         ctx.violation('transmission_value',
                       f'transmission {float(Tj[i, j])!r}, recomputed from the observed quadrature and '
                       f'oracle paths {float(exp[i, j])!r}', case, **keys)
